@@ -237,7 +237,7 @@ func auditID(epoch int64, cid, key []byte) []byte {
 func TestC20Audit(t *testing.T) {
 	theT = t
 	col := ev.New("C20", "audit",
-		"rapid: Audit put over the epoch pool, 3 container ids (one pair prefix related: LE(1)||cid0 is a prefix of LE(257)||cid1) and senders {Inner Ring member with witness, member without witness, non-member with witness}; after every step get(id), list(), listByEpoch(e), listByCID(e,cid), listByNode(e,cid,key) for the whole pool are compared with the exact-store model; non-trivial = results stored under two prefix-related epochs or container ids",
+		"rapid: Audit put over the epoch pool, 3 container ids (one pair prefix related: LE(1)||cid0 is a prefix of LE(257)||cid1) and senders {Inner Ring member with witness, member without witness, non-member with witness, non-member author co-signed by a member (either order), member author co-signed by a non-member, member author witnessed only by the other member, a member dismissed by a re-designation of the role in the previous block}; after every step get(id), list(), listByEpoch(e), listByCID(e,cid), listByNode(e,cid,key) for the whole pool are compared with the exact-store model; non-trivial = results stored under two prefix-related epochs or container ids",
 		"container ids are 32 bytes, keys 33 bytes (as the Inner Ring produces them)")
 	mk := func(h *ev.History) (*nmWorld, util.Uint160, []*keys.PrivateKey) {
 		w := newNmWorld(1, h, "audit")
@@ -264,6 +264,8 @@ func TestC20Audit(t *testing.T) {
 		w, aud, ir := mk(h)
 		defer w.close()
 		outsider := chainkit.DetKey("ir-outsider")
+		cur := []*keys.PrivateKey{ir[0], ir[1]}
+		spare, dismissed := chainkit.DetKey("ir-2"), (*keys.PrivateKey)(nil)
 		store := map[string][]byte{} // "x"+hex(id) -> value
 		idKey := map[string][]byte{} // "x"+hex(id) -> id bytes
 		type rec struct {
@@ -276,21 +278,47 @@ func TestC20Audit(t *testing.T) {
 		for s := 0; s < steps; s++ {
 			e := rapid.SampledFrom(c20Epochs).Draw(rt, "epoch")
 			cid := rapid.SampledFrom(cids).Draw(rt, "cid")
-			sender := rapid.SampledFrom([]string{"member", "member", "member", "member", "member-no-witness", "outsider"}).Draw(rt, "sender")
+			sender := rapid.SampledFrom([]string{"member", "member", "member", "member", "member-no-witness", "outsider", "outsider-cosigned-by-a-member", "member-cosigned-by-outsider", "member-witnessed-by-the-other-member"}).Draw(rt, "sender")
+			if rapid.IntRange(0, 5).Draw(rt, "rotateRole") == 0 {
+				// the Inner Ring list changes: membership is that of the block of the invocation (the next one)
+				dismissed, cur[1], spare = cur[1], spare, cur[1]
+				w.c.DesignateAlphabet(keys.PublicKeys{cur[0].PublicKey(), cur[1].PublicKey()})
+				h.Op("the Inner Ring role is re-designated (one key replaced)")
+				h.Mark("role-rotation")
+				if rapid.Bool().Draw(rt, "dismissedTriesAtOnce") {
+					sender = "dismissed-member"
+				}
+			}
 			mi := rapid.IntRange(0, 1).Draw(rt, "member")
+			ir := cur
 			from := ir[mi]
 			signers := []neotest.Signer{signerOf(from)}
 			switch sender {
+			case "dismissed-member":
+				from = dismissed
+				signers = []neotest.Signer{signerOf(dismissed)}
 			case "member-no-witness":
 				signers = []neotest.Signer{signerOf(outsider)}
 			case "outsider":
 				from = outsider
 				signers = []neotest.Signer{signerOf(outsider)}
+			case "outsider-cosigned-by-a-member":
+				// the author of the result is not in the Inner Ring, a member merely co-signs the transaction
+				from = outsider
+				signers = []neotest.Signer{signerOf(outsider), signerOf(ir[mi])}
+				if rapid.Bool().Draw(rt, "memberFirst") {
+					signers[0], signers[1] = signers[1], signers[0]
+				}
+			case "member-cosigned-by-outsider":
+				signers = []neotest.Signer{signerOf(outsider), signerOf(from)}
+			case "member-witnessed-by-the-other-member":
+				// the author is a member but only the other member signs
+				signers = []neotest.Signer{signerOf(ir[1-mi])}
 			}
 			blob := auditBlob(rapid.SampledFrom([]int{0, 3}).Draw(rt, "off"), e, cid, from.PublicKey().Bytes(), rapid.IntRange(0, 2).Draw(rt, "salt"))
 			o := w.c.Invoke(signers, aud, "put", blob)
 			h.Op("audit put(epoch %d, cid %x.., from %s) -> %s", e, cid[:3], sender, o)
-			if (sender == "member") != o.Halt {
+			if (sender == "member" || sender == "member-cosigned-by-outsider") != o.Halt {
 				fail("C20: audit put by %s: %s", sender, o)
 			}
 			if o.Halt {
